@@ -86,6 +86,20 @@ func run(c *mon.Ctx) {
 		if !bytes.Equal(in, snap) {
 			c.Fail("decode:input-modified", "decoding or a getter modified the input", wit{mon.Hex(snap), s35.Shape(&s), ""})
 		}
+		// an object decoded earlier keeps reporting its own section after other sections were decoded
+		if i%4 == 1 {
+			t := ref.GenSig(r, true)
+			scte35.NewSCTE35(t.Payload())
+			t2 := ref.GenSig(r, false)
+			if y2, err := scte35.NewSCTE35(t2.Payload()); err == nil {
+				y2.UpdateData()
+			}
+			c.Count("earlier_object_rechecked")
+			s35.CheckDecoded(c, "decode:object-after-later-decodes", &s, x, snap)
+			if !bytes.Equal(x.Data(), sec) {
+				c.Fail("decode:data-after-later-decodes", "Data() of a decoded signal changed after other sections were decoded / encoded", wit{mon.Hex(snap), s35.Shape(&s), mon.Hex(x.Data())})
+			}
+		}
 		// decoding is a function of the bytes: edit the decoded object in place, decode the same bytes again
 		if len(s.Descs) > 0 && i%3 == 0 {
 			for _, d := range x.Descriptors() {
